@@ -81,6 +81,10 @@ func (gn *graphNode) getGenericHelper() *genericHelper {
 	}
 
 	if gn.nodeInfo != nil {
+		if ret == nil && (len(gn.nodeInfo.inputKey) > 0 || len(gn.nodeInfo.outputKey) > 0) {
+			// a passthrough node whose type is not inferred yet: the keyed side is a map all the same
+			ret = &genericHelper{}
+		}
 		if len(gn.nodeInfo.inputKey) > 0 {
 			ret = ret.forMapInput()
 		}
